@@ -128,7 +128,12 @@ def ctx_sites(en, field):
         if s.kind in ("mcall", "index", "op"):
             if not s.argnodes or s.argnodes[0] is None:
                 continue
-            ap = place_path(s.argnodes[0])
+            n = s.argnodes[0]
+            while isinstance(n, dict) and (n.get("k") in ("ref", "cast") or (n.get("k") == "un" and n.get("op") == "*")):
+                n = n["e"]
+            if not isinstance(n, dict) or n.get("k") != "field":
+                continue            # only operations applied directly to the map (not to a value fetched from it)
+            ap = place_path(n)
         elif s.kind in ("assign", "assignop"):
             ap = s.name
         else:
@@ -150,3 +155,232 @@ def check_store_guard(prog, rep, rule, en):
                   "cache store is reachable without the admission guard (wild-card, or all restricted variables of the scope occur in the key): "
                   "a value computed in a restricted universe can be stored under a key that does not name the restriction")
     return stores
+
+
+def check_read_guard(prog, rep, rule, en):
+    """Every return of eval_node whose value derives from the cache is admitted, and the hit is intersected with unit(graph)."""
+    import bounded as bd
+    alg = CondAlg(en.params[0], en.params[2])
+    ctxname = en.params[2]
+    n = 0
+    for (term, pc, may, must, node, kind) in en.summ.returns:
+        if kind == "try":
+            continue
+        reads = [x for x in subterms(term) if x[0] == "call" and last(x[1]) in ("get", "get_mut", "remove", "index") and x[2]
+                 and x[2][0][0] == "field" and x[2][0][2] == CTX_CACHE and terms.mentions_param(x[2][0], ctxname)]
+        reads += [x for x in subterms(term) if x[0] == "index" and x[1][0] == "field" and x[1][2] == CTX_CACHE]
+        if not reads:
+            continue
+        n += 1
+        where = f"{en.fn.file}:{node.get('sp', [0])[0]}"
+        e = alg.pc_expr(pc)
+        rep.check(alg.implies(e, ADMIT), rule, f"eval_node/cache-hit@{n}", where,
+                  "cache hit is control-dependent on `wild-card | every restricted variable in scope occurs in the key`",
+                  "a cached value is returned without the admission guard: the key does not name every restriction in force, "
+                  "so the value may come from a different universe")
+        rep.check(bd.bounded(term, ("param", en.params[1])), rule, f"eval_node/cache-hit-bounded@{n}", where,
+                  "cache hit is intersected with the current graph's unit set",
+                  f"cached value is returned as {short(term, 160)}, not restricted to the current graph's unit set")
+    if n == 0:
+        rep.unresolved(rule, "eval_node/cache-hit", f"{en.fn.file}:{en.fn.line}", "no return path reading the cache was found")
+
+
+# ------------------------------------------------------------------------------------------------
+# scope pairing (C04-R1 / C02-R5): may-token analysis
+# ------------------------------------------------------------------------------------------------
+
+class ScopeHooks(E.Hooks):
+    """`free_var_domains.insert(var, ..)` opens an obligation that `free_var_domains.remove(&var)` closes."""
+
+    def __init__(self, base, ctxname):
+        super().__init__(base.prefixes, base.names, base.opaque_names)
+        self.ctxname = ctxname
+
+    def on_site(self, ev, site):
+        if site.kind != "mcall" or not site.argnodes or site.argnodes[0] is None:
+            return
+        ap = place_path(site.argnodes[0])
+        if not ap or ap.split(".")[:2] != [self.ctxname, CTX_SCOPE]:
+            return
+        if site.name == "insert" and len(site.args) >= 2:
+            ev.st.may = ev.st.may | {("scope", site.args[1])}
+        elif site.name == "remove" and len(site.args) >= 2:
+            ev.st.may = frozenset(t for t in ev.st.may if t != ("scope", site.args[1]))
+        elif site.name in ("clear",):
+            ev.st.may = frozenset(t for t in ev.st.may if t[0] != "scope")
+
+
+def check_scope_pairing(prog, rep, rule, en):
+    hooks = ScopeHooks(en.hooks, en.params[2])
+    eng = terms.Engine(prog, inline=True, hooks=hooks)
+    summ = eng.summary(en.fn)
+    inserts = [s for s in summ.sites if s.kind == "mcall" and s.name == "insert" and s.argnodes and s.argnodes[0] is not None
+               and (place_path(s.argnodes[0]) or "").split(".")[:2] == [en.params[2], CTX_SCOPE]]
+    if not inserts:
+        rep.unresolved(rule, "eval_node/scope-insert", f"{en.fn.file}:{en.fn.line}", "no free_var_domains.insert found")
+        return
+    for (term, pc, may, must, node, kind) in summ.returns:
+        open_ = [t for t in may if t[0] == "scope"]
+        where = f"{en.fn.file}:{node.get('sp', [0])[0]}"
+        what = "`?`" if kind == "try" else ("end of function" if kind == "tail" else "`return`")
+        rep.check(not open_, rule, f"eval_node/exit:{kind}@{summ.returns.index((term, pc, may, must, node, kind))}", where,
+                  "no scope entry is left in free_var_domains at this exit",
+                  f"{what} at line {node.get('sp', [0])[0]} is reachable after free_var_domains.insert({short(open_[0][1], 60) if open_ else ''}, ..) "
+                  f"without the matching remove: the stale entry changes the cache keys of everything evaluated afterwards")
+
+
+# ------------------------------------------------------------------------------------------------
+# eviction, counter, key agreement, renaming discipline
+# ------------------------------------------------------------------------------------------------
+
+def key_of(site):
+    """Key argument of a map operation on the cache / duplicates (first non-receiver argument)."""
+    if site.kind == "mcall" and len(site.args) >= 2:
+        return site.args[1]
+    if site.kind == "index" and len(site.args) >= 2:
+        return site.args[1]
+    return None
+
+
+def check_eviction_and_counter(prog, rep, rule, en):
+    alg = CondAlg(en.params[0], en.params[2])
+    cache = ctx_sites(en, CTX_CACHE)
+    dups = ctx_sites(en, CTX_DUP)
+    allowed = {"contains_key", "get", "insert", "remove"}
+    for s in cache:
+        if s.kind == "mcall" and s.name not in allowed:
+            rep.violation(rule, f"eval_node/cache.{s.name}@{s.ordinal}", s.where(),
+                          f"unexpected operation `{s.name}` on the cache: only look-up, store of a fresh result and eviction are part of the protocol "
+                          "(writing back into an entry changes what later hits see)")
+    # stores: the stored value is a value this call also returns (never data read from the cache)
+    rets = [r[0] for r in en.summ.returns if r[5] != "try"]
+    for s in [x for x in cache if x.kind == "mcall" and x.name == "insert"]:
+        v = s.args[2] if len(s.args) > 2 else None
+        val = v[1][0] if v and v[0] == "tuple" and v[1] else v
+        reads_cache = val is not None and any(x[0] == "field" and x[2] == CTX_CACHE for x in subterms(val))
+        fresh = val is not None and any(val == r or any(val == y for y in subterms(r) if r[0] in ("join", "ite")) for r in rets)
+        rep.check(fresh and not reads_cache, rule, f"eval_node/store-value@{s.ordinal}", s.where(),
+                  "stored value is the freshly computed result that is also returned",
+                  f"value stored in the cache ({short(val, 140)}) is not the result this call returns" +
+                  (" and derives from a cached entry (write-back)" if reads_cache else ""))
+    # evictions
+    for s in [x for x in cache + dups if x.kind == "mcall" and x.name == "remove"]:
+        e = alg.pc_expr(s.pc)
+        not_wc = alg.implies(e, ("not", ("atom", ("WC",))))
+        zero = any(c[0] == "if" and c[2] and any(y[0] == "bin" and y[1] == "==" and ("lit", 0) in (y[2], y[3]) and "duplicates" in pt(y)
+                                                   for y in subterms(c[1])) for c in s.pc)
+        what = "cache" if s in cache else "duplicates"
+        rep.check(not_wc and zero, rule, f"eval_node/{what}.remove@{s.ordinal}", s.where(),
+                  "eviction only for non-wild-card entries whose counter reached zero",
+                  ("wild-card entries can be evicted although they cannot be recomputed (the wild-card arm is unreachable!()); " if not not_wc else "") +
+                  ("eviction is not conditioned on the duplicate counter being zero" if not zero else ""))
+    # exactly one decrement, on the hit path
+    decs = [s for s in dups if s.kind == "assignop"]
+    good = len(decs) == 1 and decs[0].args[1] == ("lit", 1) and (decs[0].term or ("", "", ""))[1] == "-"
+    if good:
+        e = alg.pc_expr(decs[0].pc)
+        good = any(a[0] == "CACHED" for a in alg.atoms_of(e)) and alg.implies(e, ADMIT)
+    rep.check(good, rule, "eval_node/counter", decs[0].where() if decs else f"{en.fn.file}:{en.fn.line}",
+              "duplicate counter decremented exactly once per admitted cache hit",
+              f"{len(decs)} decrement sites / not on the admitted hit path")
+    # all operations use one key
+    keys = []
+    for s in cache + dups:
+        k = key_of(s)
+        if k is not None:
+            keys.append((s, alg.canon(k)))
+    distinct = {k for _, k in keys}
+    rep.check(len(distinct) == 1 and len(keys) >= 8, rule, "eval_node/one-key", f"{en.fn.file}:{en.fn.line}",
+              f"all {len(keys)} cache / duplicates operations use the same key",
+              f"{len(distinct)} different keys are used across {len(keys)} cache / duplicates operations")
+    return keys[0][0].args[1] if keys else None
+
+
+def check_key_recipe(prog, rep, rule, en, reader_key):
+    """Reader (eval_node) and writer (mark_duplicates_canonized_multiple) build the key by the same recipe."""
+    md = prog.lib_fn("evaluation::mark_duplicates::mark_duplicates_canonized_multiple")
+    if md is None or reader_key is None:
+        rep.unresolved(rule, "key-recipe", "", "writer function or reader key not found")
+        return
+    rep.functions.add(md.qual)
+    eng = terms.Engine(prog, inline=False)
+    s = eng.summary(md)
+    wkeys = []
+    for st in s.sites:
+        if st.kind == "mcall" and st.name in ("insert", "contains_key") and st.argnodes and st.argnodes[0] is not None \
+                and place_path(st.argnodes[0]) == "duplicates" and len(st.args) >= 2:
+            wkeys.append(st)
+    if not wkeys:
+        rep.unresolved(rule, "key-recipe", f"{md.file}:{md.line}", "no duplicates.insert in the writer")
+        return
+    alg = setalg.Alg()
+    # map the writer's vocabulary onto the reader's: current_node.subtree -> node, current_node.domains -> free_var_domains
+    node = ("param", en.params[0])
+    scope = ("field", ("param", en.params[2]), CTX_SCOPE)
+    rk = alg.canon(reader_key)
+    for st in wkeys:
+        wk = st.args[1]
+        cands = [x for x in subterms(wk) if x[0] == "field" and x[2] == "subtree"]
+        doms = [x for x in subterms(wk) if x[0] == "field" and x[2] == "domains"]
+        t = wk
+        for c in cands[:1]:
+            t = terms.replace(t, c, node)
+        for d in doms[:1]:
+            t = terms.replace(t, d, scope)
+        same = alg.canon(strip_loop_ids(t)) == alg.canon(strip_loop_ids(reader_key))
+        rep.check(same, rule, f"writer/{st.name}@{st.ordinal}", st.where(),
+                  "writer's key recipe equals the reader's (canonical text, canonical domains of the variables that occur)",
+                  f"writer builds {short(t, 200)}; reader builds {short(reader_key, 200)}")
+    # duplicates are only recorded for at most one variable (sequential renaming on a hit is only correct then)
+    for st in [x for x in wkeys if x.name == "insert"]:
+        guard = False
+        for c in st.pc:
+            if c[0] == "if" and c[2]:
+                for y in subterms(c[1]):
+                    if y[0] == "bin" and y[1] in ("<=", "<") and y[3][0] == "lit" and ((y[1] == "<=" and y[3][1] <= 1) or (y[1] == "<" and y[3][1] <= 2)) \
+                            and y[2][0] == "call" and last(y[2][1]) == "len" and "get_canonical_and_renaming" in pt(y[2]):
+                        guard = True
+        rep.check(guard, rule, f"writer/len-guard@{st.ordinal}", st.where(), "duplicate recorded only when the renaming has at most one variable",
+                  "duplicates.insert is not control-dependent on `renaming.len() <= 1`: hits would rename several variables sequentially")
+
+
+def strip_loop_ids(t):
+    """Loop ids are positions in the function body: irrelevant for comparing two recipes."""
+    if not isinstance(t, tuple) or not t:
+        return t
+    if t[0] == "mu":
+        return ("mu", 0, "v", strip_loop_ids(t[3]), strip_loop_ids(t[4]))
+    if t[0] == "loopvar":
+        return ("loopvar", 0, "v")
+    return tuple(strip_loop_ids(x) if isinstance(x, tuple) else x for x in t)
+
+
+def check_renaming_on_hit(prog, rep, rule, en):
+    alg = CondAlg(en.params[0], en.params[2])
+    subs = [s for s in en.summ.sites if s.kind == "call" and s.is_call_to("substitute_hctl_var")]
+    if not subs:
+        rep.unresolved(rule, "eval_node/substitute", f"{en.fn.file}:{en.fn.line}", "no substitute_hctl_var call on the hit path")
+        return
+    for s in subs:
+        a = s.args
+        problems = []
+        if a[0] != ("param", en.params[1]):
+            problems.append("renaming is not done on the current graph")
+        frm, to = a[2], a[3]
+        # `from` = name stored with the cached value, `to` = current name of the same canonical variable
+        stored = [x for x in subterms(frm) if x[0] == "field" and x[2] == CTX_CACHE]
+        if not (frm[0] == "tproj" and frm[2] == 0 and stored):
+            problems.append(f"`from` variable ({short(frm, 80)}) is not the original name stored with the cached value")
+        gets = [x for x in subterms(to) if x[0] == "call" and last(x[1]) == "get" and len(x[2]) == 2]
+        ok_to = False
+        for gcall in gets:
+            m, k = gcall[2]
+            inserts = [y for y in subterms(m) if y[0] == "call" and last(y[1]) == "insert" and len(y[2]) == 2]
+            inv = any(y[2][0][0] == "tproj" and y[2][0][2] == 1 and y[2][1][0] == "tproj" and y[2][1][2] == 0 and
+                      any(alg.is_renaming(z) for z in subterms(y[2][0])) for y in inserts)
+            if inv and k[0] == "tproj" and k[2] == 1 and any(x[0] == "field" and x[2] == CTX_CACHE for x in subterms(k)):
+                ok_to = True
+        if not ok_to:
+            problems.append(f"`to` variable ({short(to, 100)}) is not looked up in the inverse of the current renaming by the stored canonical name")
+        rep.check(not problems, rule, f"eval_node/substitute@{s.ordinal}", s.where(),
+                  "cached set renamed from the stored variable name to the current name of the same canonical variable", "; ".join(problems))
